@@ -146,6 +146,7 @@ def run(ctx: Context) -> None:
     ctx.rule('R01.7', "calls between repository functions in the anchored files pass positional arguments to the parameters of the same name (no swapped latitude/longitude, kind/index ...)", floor=20)
     ctx.rule('R01.8', "the dimensions of each mesh grid kind are discovered from the mesh attributes with the documented precedence (shared with C10 R10.5)", floor=5)
     ctx.rule('R01.9', "a hand built ArakawaC pairs every grid kind with the coordinate names given for that kind", floor=1)
+    ctx.rule('R01.10', "a native index outside the grid is not wrapped by selection either: a negative index is refused before it reaches Dataset.isel (fact shared with C05 R05.1)", floor=1)
     from . import infra as _infra
     _infra.arakawa_names(ctx, 'R01.9')
     ctx.assume("numpy.ravel_multi_index / unravel_index with equal shape, order='C', mode='raise' are mutually inverse on [0, prod(shape)) and raise outside it")
@@ -155,6 +156,8 @@ def run(ctx: Context) -> None:
     swapped_argument_obligations(ctx, 'R01.7')
     from . import c10
     share_obligations(ctx, c10, {'R10.5'}, 'R01.8')
+    from . import c05
+    share_obligations(ctx, c05, {'R05.1'}, 'R01.10', only=lambda ob: 'negative native index' in ob.text)
     concrete = [c for c in p.concrete_classes(base)]
     ctx.require(len(concrete) >= 5, f"expected >= 5 concrete DimensionConvention classes, found {len(concrete)}")
 
@@ -458,6 +461,7 @@ VARIANTS = [
     V('C01', 'arakawa-pack-const-kind', _A, "        return cast(ArakawaCIndex, (grid_kind, *indexes))", "        return cast(ArakawaCIndex, (ArakawaCGridKind.face, *indexes))", 'R01.1'),
     V('C01', 'ugrid-unpack-const-kind', _U, "    def unpack_index(self, index: UGridIndex) -> tuple[UGridKind, Sequence[int]]:\n        return index[0], index[1:]", "    def unpack_index(self, index: UGridIndex) -> tuple[UGridKind, Sequence[int]]:\n        return UGridKind.face, index[1:]", 'R01.1'),
     V('C01', 'cfgrid-pack-reversed', _G, "        return cast(CFGridIndex, indexes)", "        return cast(CFGridIndex, tuple(reversed(indexes)))", 'R01.1'),
+    V('C01', 'negative-index-wraps-in-select', _B, "        if (index_array < 0).any():\n            raise ValueError(\"Indexes must not be negative\")\n", "", 'R01.10'),
     V('C01', 'mode-wrap', _B, "        return int(numpy.ravel_multi_index(indexes, shape))", "        return int(numpy.ravel_multi_index(indexes, shape, mode='wrap'))", 'R01.3'),
     V('C01', 'mode-clip', _B, "        return int(numpy.ravel_multi_index(indexes, shape))", "        return int(numpy.ravel_multi_index(indexes, shape, mode='clip'))", 'R01.3'),
     V('C01', 'order-F', _B, "        indexes = tuple(map(int, numpy.unravel_index(linear_index, shape)))", "        indexes = tuple(map(int, numpy.unravel_index(linear_index, shape, order='F')))", 'R01.3'),
